@@ -4,6 +4,7 @@
 package zzverif
 
 import (
+	"fmt"
 	"github.com/cockroachdb/redact"
 	ifc "github.com/cockroachdb/redact/interfaces"
 	"github.com/cockroachdb/redact/internal/buffer"
@@ -282,7 +283,12 @@ func H_hist(p []int) {
 		site += string(rune('A' + code))
 	}
 	vSite(site)
+	runHistory(ops)
+}
 
+// runHistory runs a script on the three implementations and asserts
+// the C01/C03/C09/C13 conditions.
+func runHistory(ops []opRec) {
 	// reference
 	var A, D []byte
 	valid := true
@@ -349,4 +355,38 @@ func checkOut(out, A, D []byte, valid bool, who string) {
 
 func init() {
 	Harnesses["H_hist"] = H_hist
+	Harnesses["H_hist2"] = H_hist2
 }
+
+// H_hist2: like H_hist but every operation has its own payload length:
+// p = [n1, op1, n2, op2, ...].  Used for scripts mixing empty and
+// non-empty payloads.
+func H_hist2(p []int) {
+	var q []int
+	var ops []opRec
+	site := "ops="
+	for k := 0; k+1 < len(p); k += 2 {
+		ops = append(ops, mkOp(p[k+1], p[k]))
+		site += string(rune('A'+p[k+1])) + string(rune('0'+p[k]))
+		q = append(q, p[k+1])
+	}
+	vSite(site)
+	runHistory(ops)
+}
+
+// H_histp: an unrelated earlier call (c12History) first, then a script:
+// p = [prelude, n, op1, op2, ...]; run with the adversarial pool.
+func H_histp(p []int) {
+	c12History(p[0], "h")
+	n := p[1]
+	var ops []opRec
+	site := fmt.Sprintf("prelude=%d ops=", p[0])
+	for _, code := range p[2:] {
+		ops = append(ops, mkOp(code, n))
+		site += string(rune('A' + code))
+	}
+	vSite(site)
+	runHistory(ops)
+}
+
+func init() { Harnesses["H_histp"] = H_histp }
